@@ -9,7 +9,7 @@ the reference reader.
 """
 import os, sys, json, random, hashlib, time
 from vlib import tlc, check
-from sim.tlvtags import SimT2T, SimT1T, SimTimeout
+from sim.tlvtags import SimT2T, SimT1T, SimTimeout, SimXmitError
 
 import nfc
 import nfc.clf
@@ -38,6 +38,8 @@ class FakeClf(object):
             return bytearray(self.sim.command(data))
         except SimTimeout:
             raise nfc.clf.TimeoutError("no response from simulated tag")
+        except SimXmitError:
+            raise nfc.clf.TransmissionError("garbled frame from simulated tag")
 
     def sense(self, target, **kw):
         return target if self.sim.powered else None
@@ -267,52 +269,89 @@ def fresh_view(sim):
         return dict(a="View", k="raise", v=[], cap=0, exc=type(e).__name__)
 
 
+def reader_state(tag, sim, nd):
+    rsec = getattr(tag, "_current_sector", 0)
+    tsec = getattr(sim, "sector", 0)
+    tm = getattr(nd, "_tag_memory", None) if nd is not None else None
+    ext = len(tm) if (tm is not None and isinstance(sim, SimT2T)) else len(sim.mem)
+    return tm, dict(ext=ext, rsec=rsec, tsec=tsec)
+
+
 def run_case(case):
-    """case: dict(id, lay=<desc>, lseed, op='write'|'format', n / wipe, mseed, cut=None|k)"""
+    """case: dict(id, lay=<desc>, lseed, op='write'|'format', n / wipe, mseed, cut=None|k,
+                  fault=None|dict(at=<frame index since the call started>, kind='burst'|'nak'|'xerr'),
+                  retry=0|1 (the call is repeated on the same tag object after a failed one; `cut` then applies to
+                  the repeated call))"""
     rnd = random.Random(case["lseed"])
     lay = build(rnd, case["lay"])
     sim = make_sim(lay)
     ev = []
-    sim.on_write = lambda u, d: ev.append(dict(a="Cmd", u=u, d=d))
+    sim.on_write = lambda u, d: ev.append(dict(a="Cmd", s=0, u=u, d=d))
+    sim.on_sel = lambda sec: ev.append(dict(a="Cmd", s=1, u=sec, d=[]))
+    sim.on_fault = lambda kind, at: ev.append(dict(a="Fault", kind=kind, at=at))
     tag = activate(sim)
     nd = tag.ndef
     if nd is None:
         raise HarnessError("layout not recognised as NDEF by nfcpy: %r" % case)
     skipn = len([a for a in nd._skip_bytes if a < len(sim.mem)])
     base = dict(off=nd._ndef_tlv_offset, cap=nd.capacity, nskip=skipn)
-    if case.get("cut") is not None:
-        sim.cut_after = case["cut"]
-    res, exc = "ok", ""
-    if case["op"] == "write":
-        msg = new_message(case["mseed"], case["n"])
-        ev.append(dict(a="Begin", op="write", msg=msg, wipe=256, **base))
-        try:
-            nd.octets = bytes(bytearray(msg))
-        except ValueError as e:
-            res, exc = "reject", "ValueError"
-        except nfc.tag.TagCommandError as e:
-            res, exc = ("cut" if not sim.powered else "crash"), type(e).__name__
-        except Exception as e:
-            res, exc = "crash", type(e).__name__
-    else:
-        wipe = case["wipe"]
-        ev.append(dict(a="Begin", op="format", msg=[], wipe=256 if wipe is None else wipe, **base))
-        try:
-            r = tag.format(wipe=wipe)
-            if r is not True:
-                res, exc = "crash", "returned %r" % (r,)
-        except nfc.tag.TagCommandError as e:
-            res, exc = ("cut" if not sim.powered else "crash"), type(e).__name__
-        except Exception as e:
-            res, exc = "crash", type(e).__name__
-    if res == "ok" and not sim.powered and case.get("cut") is not None and len(sim.log) == case["cut"]:
-        pass        # the cut fell exactly after the last command: the call returned normally
-    ev.append(dict(a="Ret", res=res, exc=exc, n=len(sim.log), mem=list(sim.mem)))
-    sim.on_write = None
+    retries = case.get("retry", 0)
+    fault = case.get("fault")
+    msg = new_message(case["mseed"], case["n"]) if case["op"] == "write" else []
+    wipe = case.get("wipe")
+    kinds = []
+    for attempt in range(1 + retries):
+        tm, rs = reader_state(tag, sim, tag._ndef)
+        if attempt == 0:
+            sim.arm(fault)
+            snap = dict(retry=False, cache=[], shadow=[])
+        else:
+            sim.arm(None)
+            snap = dict(retry=True, cache=list(tm._data_in_cache) if tm is not None and case["op"] == "write" or
+                        (tm is not None and lay["fmt"] == "T2") else [],
+                        shadow=list(tm._data_from_tag) if tm is not None and (case["op"] == "write" or lay["fmt"] == "T2")
+                        else [])
+        if case.get("cut") is not None and attempt == retries:
+            sim.cut_after = len(sim.log) + case["cut"]
+        nfault = sum(1 for e in ev if e["a"] == "Fault")
+        ncmd0 = sum(1 for e in ev if e["a"] == "Cmd")
+        res, exc = "ok", ""
+        if case["op"] == "write":
+            ev.append(dict(a="Begin", op="write", msg=msg, wipe=256, **dict(base, **dict(snap, **rs))))
+            try:
+                tag.ndef.octets = bytes(bytearray(msg))
+            except ValueError as e:
+                res, exc = "reject", "ValueError"
+            except nfc.tag.TagCommandError as e:
+                res, exc = "tce", type(e).__name__
+            except Exception as e:
+                res, exc = "crash", type(e).__name__
+        else:
+            ev.append(dict(a="Begin", op="format", msg=[], wipe=256 if wipe is None else wipe,
+                           **dict(base, **dict(snap, **rs))))
+            try:
+                r = tag.format(wipe=wipe)
+                if r is not True:
+                    res, exc = "crash", "returned %r" % (r,)
+            except nfc.tag.TagCommandError as e:
+                res, exc = "tce", type(e).__name__
+            except Exception as e:
+                res, exc = "crash", type(e).__name__
+        if res == "tce":
+            faulted = sum(1 for e in ev if e["a"] == "Fault") > nfault
+            res = "cut" if not sim.powered else ("fail" if faulted else "crash")
+        kinds = list(sim.kinds)
+        tm2, rs2 = reader_state(tag, sim, tag._ndef)
+        ev.append(dict(a="Ret", res=res, exc=exc, n=sum(1 for e in ev if e["a"] == "Cmd") - ncmd0, mem=list(sim.mem),
+                       shadow=list(tm2._data_from_tag) if (res == "fail" and tm2 is not None) else [],
+                       rsec=rs2["rsec"], tsec=rs2["tsec"]))
+        if res != "fail":
+            break
+    sim.on_write = sim.on_sel = sim.on_fault = None
     ev.append(fresh_view(sim))
     const = dict(kind=lay["kind"], unit=lay["unit"], fmt=lay["fmt"], mem0=list(lay["mem0"]), ro=lay["ro"],
                  ow=lay["ow"], relax=[], old=list(lay["old"]))
-    return dict(id=case["id"], const=const, ev=ev)
+    return dict(id=case["id"], const=const, ev=ev, frames=kinds)
 
 
 # ------------------------------------------------------------------------------------------------
